@@ -58,6 +58,9 @@ def run(tier, seed):
                 x = (docs.STD if (k + len(f)) % 2 else (E["NOTES"] | E["CRITIC"])) | (E["COMPLETE"] if k % 5 == 0 else 0)
                 if body(c).startswith(b"<opml"): x |= E["PARSE_OPML"]          # (the text is an outline: imported first, then rendered)
                 s.append(line("conv", "s_conv", "u%d" % j, docs.FMT[f], x, k % 7))
+            if b"{~~" in body(c) or b"{++" in body(c):
+                # the CriticMarkup accept / reject passes rewrite the text itself (what -a / -r do before anything is parsed)
+                s.append(line("critic", "acc", "u%d" % j)); s.append(line("critic", "rej", "u%d" % j))
             if body(c).startswith((b"Title:", b"Key:")):
                 # the packaged formats quote metadata in members of their own (package document, meta.xml, info.json, map data)
                 for f in ("epub", "odt", "itmz", "bundlezip"):
@@ -75,6 +78,10 @@ def run(tier, seed):
             if ev.get("e") == "meta" and ev.get("op") == "upd":
                 k = si * per + int(ev["src"][1:]); c = cases[k]
                 trace.append(dict(e="out", null=ev.get("text") is None, runs=runs_of((ev.get("text") or "").encode("latin-1")), srcruns=runs_of(body(c)) + [[0xc3, 0xb6], [0xe4, 0xb8, 0xad], [0xc3, 0xa9]], case=k, fmt=-1, ext=0))
+                continue
+            if ev.get("e") == "critic":
+                k = si * per + int(ev["src"][1:]); c = cases[k]
+                trace.append(dict(e="out", null=False, runs=runs_of((ev.get("text") or "").encode("latin-1")), srcruns=runs_of(body(c)), case=k, fmt=-2, ext=0))
                 continue
             if ev.get("e") != "conv": continue
             k = si * per + int(ev["src"][1:]); c = cases[k]
@@ -94,7 +101,7 @@ def run(tier, seed):
     seen = {}
     for seg, idx in rejected:
         ev = seg[idx]; c = cases[ev["case"]]
-        fname = docs.FMTNAME.get(ev["fmt"], "metadata-update")
+        fname = "critic-accept-reject" if ev["fmt"] == -2 else docs.FMTNAME.get(ev["fmt"], "metadata-update")
         key = "invalid-utf8:%s:%s" % (fname, c["cp"])
         k2 = "invalid-utf8:%s:%s" % (c["cp"], "upd" if ev["fmt"] < 0 else "conv")
         if k2 in seen: seen[k2] += 1; continue
